@@ -3,7 +3,7 @@ From Coq Require Import Permutation Sorted.
 From ZV.Common Require Import Base.
 From ZV.C10 Require Import Model Spec ProofsPow2 ProofsRing ProofsHist ProofsVec ProofsValVec ProofsFixed.
 From ZV.Gen Require Import ConstsC10.
-From ZV.C10 Require Import ModelValVec32 ProofsValVec32 ModelArena ProofsArena ModelStrVec ProofsStrVec ModelFixedLen ProofsFixedLen ModelFastVecCopy ProofsFastVecCopy ModelCacheVec ProofsCacheVec ModelCases.
+From ZV.C10 Require Import ModelValVec32 ProofsValVec32 ModelArena ProofsArena ModelStrVec ProofsStrVec ModelFixedLen ProofsFixedLen ModelFastVecCopy ProofsFastVecCopy ModelCacheVec ProofsCacheVec ModelBitPacked ProofsBitPacked ModelCases.
 Open Scope N_scope.
 
 (* ensure_power_of_two (bit smearing) returns a power of two that is large enough, for every request up to 2^62 *)
@@ -782,3 +782,49 @@ Check bumpvec_exactly_once :
     Permutation (bhistory_in A ops) (bhistory_out A ops outs ++ d) /\
     (forall j, abuf v'' j = None).
 Print Assumptions bumpvec_exactly_once.
+
+(* ===== extension 3: BitPackedStringVec32/64 (ModelBitPacked.v) ===== *)
+
+(* BitPackedEntry: offset()/length() of a packed entry are the packed values whenever each fits its bit field
+   (32 + 32 bits for the u32 variant, 40 + 24 bits for the u64 variant); bit-level proof *)
+Theorem bitpacked_entry_roundtrip :
+  forall (w64 : bool) o l, o <= (if w64 then MASK40 else U32_MAX) -> l <= bp_max_length w64 ->
+  bp_offset w64 (bp_pack w64 o l) = o /\ bp_length w64 (bp_pack w64 o l) = l.
+Proof. exact ProofsBitPacked.bp_unpack. Qed.
+Check bitpacked_entry_roundtrip :
+  forall (w64 : bool) o l, o <= (if w64 then MASK40 else U32_MAX) -> l <= bp_max_length w64 ->
+  bp_offset w64 (bp_pack w64 o l) = o /\ bp_length w64 (bp_pack w64 o l) = l.
+Print Assumptions bitpacked_entry_roundtrip.
+
+(* bitpacked_refines_list: for both variants and every history of push/get/get_bytes/len over well-formed UTF-8
+   strings (64-bit variant: at most 2^40 - 1 bytes pushed in total, the width of its offset field), no indexing panics,
+   push returns the Vec index or refuses exactly at the limits (u32 variant: arena would exceed u32::MAX; u64 variant:
+   string longer than 2^24 - 1 bytes - whose bytes stay in the arena without an entry), get/get_bytes i = i-th accepted
+   string, len = their number; BV holds at the end *)
+Theorem bitpacked_refines_list :
+  forall (w64 : bool) (ops : list pop), Forall pop_wf ops -> (w64 = true -> phist_bytes ops <= MASK40) ->
+  exists v', bpv_run w64 bpv_new ops = Done (v', snd (bps_run w64 ([], 0) ops)) /\
+             BV w64 v' (fst (bps_run w64 ([], 0) ops)).
+Proof. exact ProofsBitPacked.bitpacked_refines_list_proof. Qed.
+Check bitpacked_refines_list :
+  forall (w64 : bool) (ops : list pop), Forall pop_wf ops -> (w64 = true -> phist_bytes ops <= MASK40) ->
+  exists v', bpv_run w64 bpv_new ops = Done (v', snd (bps_run w64 ([], 0) ops)) /\
+             BV w64 v' (fst (bps_run w64 ([], 0) ops)).
+Print Assumptions bitpacked_refines_list.
+
+(* strings of at most 2^24 - 1 bytes with a total of at most u32::MAX bytes are all accepted by both variants and
+   get / get_bytes i is the i-th pushed string byte for byte *)
+Theorem bitpacked_get_pushes :
+  forall (w64 : bool) (ss : list bytes) i,
+  Forall (fun s => utf8_valid s = true /\ nlen s <= MASK24) ss -> nlen (concat ss) <= U32_MAX ->
+  exists v outs, bpv_run w64 bpv_new (map PPush ss) = Done (v, outs) /\
+                 bpv_get w64 v i = Done (nth_error ss (N.to_nat i)) /\
+                 bpv_get_bytes w64 v i = Done (nth_error ss (N.to_nat i)) /\ nlen (pentries v) = nlen ss.
+Proof. exact ProofsBitPacked.bitpacked_get_pushes_proof. Qed.
+Check bitpacked_get_pushes :
+  forall (w64 : bool) (ss : list bytes) i,
+  Forall (fun s => utf8_valid s = true /\ nlen s <= MASK24) ss -> nlen (concat ss) <= U32_MAX ->
+  exists v outs, bpv_run w64 bpv_new (map PPush ss) = Done (v, outs) /\
+                 bpv_get w64 v i = Done (nth_error ss (N.to_nat i)) /\
+                 bpv_get_bytes w64 v i = Done (nth_error ss (N.to_nat i)) /\ nlen (pentries v) = nlen ss.
+Print Assumptions bitpacked_get_pushes.
